@@ -100,6 +100,17 @@ def base_coverage(run, r, au, extra_rule=''):
                     if lean.get('%d PASSES' % i, '').startswith('DIFF')][:5],
             note='Passes.passes (Lean model of early-accept detection, late-accept removal, dead-end pruning and state de-duplication in Graph::new) applied to the '
                  'hook\'s dump of the graph before the passes, compared state by state with the final graph; a difference alone is not reported (the certificate on the final graph decides)'),
+        raw_graph_predicted=dict(
+            same=sum(1 for i in r['accepted'] if lean.get('%d FROMDFA' % i, '').startswith('SAME')),
+            table_closed=sum(1 for i in r['accepted'] if 'closed=1' in lean.get('%d FROMDFA' % i, '')),
+            raw_side_conditions_hold=sum(1 for i in r['accepted'] if lean.get('%d FROMDFA' % i, '').endswith('rawside=1')),
+            too_big=sum(1 for i in r['accepted'] if lean.get('%d FROMDFA' % i, '').startswith('BIG')),
+            dfa_states=sum(int(lean['%d FROMDFA' % i].split(' ')[1]) for i in r['accepted'] if lean.get('%d FROMDFA' % i, '').startswith('SAME')),
+            differ=[dict(origin=r['corpus'][i].origin, answer=lean.get('%d FROMDFA' % i, '')[:300]) for i in r['accepted']
+                    if lean.get('%d FROMDFA' % i, '').startswith('DIFF')][:5],
+            note='FromDfa.rawOf (Lean model of the first half of Graph::new: get_states, numbering, get_state_type, grouping of the 256 byte successors into byte classes, '
+                 'end-of-input edges) applied to the hook\'s dump of regex-automata\'s transition table, compared state by state with the graph the code built before its passes; '
+                 'with graph_passes_predicted the final graph is predicted from the DFA table alone; a difference alone is not reported (the certificate on the final graph decides)'),
         definitions=len(r['corpus']), definitions_accepted=len(r['accepted']),
         configs=list(r['zoo_out'].keys()), graph_states=nstates,
         stage_cached=r.get('cached', False), stage_key=r['key'],
